@@ -304,9 +304,10 @@ def check_with(case, driver):
                         pname = case["specs"][0]["model"] if len(f0) % 2 else "Earlier"     # same model name in half of the cases
                         prior = ["-m", pname, f0, "--merge", "percent_1", "number_1", "--dict-keys-regex", ".*", "n_.*",
                                  "--dict-keys-fields", "data", "items", *case["specs"][0]["lookup"][:1],
-                                 "-f", "attrs", "--max-strings-literals", "1", "-s", "nested", "--strings-converters",
+                                 "-f", opts["fw"] if opts["fw"] in ("attrs", "dataclasses") else "attrs",
+                                 "--max-strings-literals", "1", "-s", "nested", "--strings-converters",
                                  "--disable-unicode-conversion", "--preamble", "# EARLIER = 1",
-                                 "--code-generator-kwargs", "meta=true"] + \
+                                 "--code-generator-kwargs", "meta=false" if opts.get("meta") else "meta=true"] + \
                             (["-i", case["format"]] if case["format"] != "json" else [])
                 elif case.get("prior_failed_parse"):
                     # the same Cli object was used before for a command that failed after its input had been loaded
@@ -394,19 +395,35 @@ def ini_samples(draw):
         # a [DEFAULT] section: its options belong to every section (configparser semantics), it is not a section itself
         opts = draw(st.lists(st.sampled_from(["host", "port", "debug", "name", "timeout", "ratio", "owner"]), min_size=1, max_size=4, unique=True))
         doc = dict([("DEFAULT", {o: draw(st.sampled_from(["localhost", "8080", "true", "1.5", "d"])) for o in opts})] + list(doc.items()))
+    if draw(st.integers(0, 2)) == 0:
+        # values written with the INI escape for a percent sign and with a reference to another option of the section (or of
+        # [DEFAULT]): the builtin parser resolves both
+        for sec in [x for x in doc if x != "DEFAULT"]:
+            avail = list(doc.get("DEFAULT", {})) + [k for k in doc[sec] if "%" not in doc[sec][k]]
+            avail = [k for k in avail if "%" not in {**doc.get("DEFAULT", {}), **doc[sec]}[k]]
+            if avail and draw(st.booleans()):
+                doc[sec]["url"] = "%(" + draw(st.sampled_from(avail)) + ")s/x"
+            if draw(st.booleans()):
+                doc[sec]["share"] = draw(st.sampled_from(["50%%", "%%", "1%% of x"]))
     return [doc]
 
 
 def ini_effective(doc):
-    """what an INI document means: every section with the defaults first (an overriding option keeps the default's place)"""
-    if not isinstance(doc, dict) or "DEFAULT" not in doc:
+    """what an INI document means: every section with the defaults first (an overriding option keeps the default's place),
+    %% read as a percent sign and %(name)s as the value of option name"""
+    if not isinstance(doc, dict):
         return doc
+    import re
     out = {}
     for sec, options in doc.items():
         if sec == "DEFAULT":
             continue
-        d = dict(doc["DEFAULT"])
+        d = dict(doc.get("DEFAULT", {}))
         d.update(options)
+        raw = dict(d)
+        for k, v in d.items():
+            if isinstance(v, str) and "%" in v:
+                d[k] = re.sub(r"%%|%\((\w+)\)s", lambda m: "%" if m.group(0) == "%%" else raw[m.group(1)], v)
         out[sec] = d
     return out
 
